@@ -17,7 +17,7 @@ except Exception:  # pragma: no cover
 
 META = {
     "technique": "Lean 4 proofs (exact second-order energy expansion, Hellmann-Feynman stationarity at self-consistency, Dewar-Yamaguchi contraction = exact variation in the integrals, core-core derivative = HasDerivAt of the core-core energy, preprocessing consistency) + function-level correspondence + Richardson finite-difference search over element x method x force-mode x solver x spin lattice",
-    "level_text": "Theorems over the reals: E(P+D) = E(P) + <F(P),D> + 1/2<D,G D>; at a self-consistent idempotent P the first-order term vanishes on tangent variations, so the derivative at fixed P is the total derivative; the energy is affine in (h, w, Enuc) at fixed P, hence the analytical contraction is the exact integral variation; the modelled core_core_der is the derivative of the modelled pair_nuclear_energy for MNDO/AM1/PM3 incl. the N-H/O-H case; energy-side and derivative-side parameter preprocessing agree. Tied to the code by function-level correspondence (pair_nuclear_energy, rotation) and by directional Richardson finite differences of the REAL Etot against all three force evaluators over the configuration lattice, with bonds on the axes / in the cone over-sampled.",
+    "level_text": "Theorems over the reals: E(P+D) = E(P) + <F(P),D> + 1/2<D,G D>; at a self-consistent idempotent P the first-order term vanishes on tangent variations, so the derivative at fixed P is the total derivative; the energy is affine in (h, w, Enuc) at fixed P, hence the analytical contraction is the exact integral variation; the modelled core_core_der is the derivative of the modelled pair_nuclear_energy for MNDO/AM1/PM3 incl. the N-H/O-H case; energy-side and derivative-side parameter preprocessing agree. Tied to the code by function-level correspondence (pair_nuclear_energy, rotation) and by directional Richardson finite differences of the REAL Etot against all three force evaluators over the configuration lattice, with bonds on the axes / in the cone over-sampled. Translator tie (regenerated every run): pair_nuclear_energy (MNDO, AM1/PM3) and the hand-written core_core_der are translated statement by statement into one-pair scalar programs and proved equal to the model functions whose derivative relation is proved; their N-H/O-H masks agree for all atomic numbers (CoreCoreTie).",
     "level_note": "Trusted: Lean kernel; harness; FD tolerance max(50*scf_eps, 4e-6) eV/A. Overlap derivatives are finite differences inside the code itself; excited-state Z-vector and UHF Fock are probe-only. Known finding F2 (cone around +-x) is shared with C02.",
     "design_ref": "DESIGN.md section 5 C01",
 }
